@@ -543,6 +543,13 @@ func runMod1(c *eng.Ctx, cc compCfg) {
 	}
 	evm := mod1Lits[cc.Variant%3]
 	sig := "C13|mod1.Evaluator.EvaluateNew"
+	// half of the cases go through EvaluateAndScaleNew: same circuit, output documented as scaling * (x mod 1)
+	scaling := 1.0
+	if rnd.Bool() {
+		scaling = eng.Pick(rnd, 0.5, 0.25, 0.75)
+		sig = "C13|mod1.Evaluator.EvaluateAndScaleNew"
+		c.Count("mod1_evaluations_with_output_scaling", 1)
+	}
 	mp, err := mod1.NewParametersFromLiteral(x.params, evm)
 	if err != nil {
 		c.Violate("C13|mod1.NewParametersFromLiteral|unexpected-error", err.Error(), cc)
@@ -575,7 +582,7 @@ func runMod1(c *eng.Ctx, cc compCfg) {
 		c.Inconclusive(err.Error())
 		return
 	}
-	c.Distinct(fmt.Sprintf("mod1/logN%d/type%d", cc.LogN, evm.Mod1Type), true)
+	c.Distinct(fmt.Sprintf("mod1/logN%d/type%d/scaled%v", cc.LogN, evm.Mod1Type, scaling != 1), true)
 	c.Sample(map[string]any{"cfg": cc, "mod1": evm})
 	var res *rlwe.Ciphertext
 	if !c.Try(sig, func() {
@@ -597,7 +604,12 @@ func runMod1(c *eng.Ctx, cc compCfg) {
 		if err = eval.Rescale(ct, ct); err != nil {
 			return
 		}
-		res, err = mod1.NewEvaluator(eval, ckkspoly.NewEvaluator(x.params, eval), mp).EvaluateNew(ct)
+		me := mod1.NewEvaluator(eval, ckkspoly.NewEvaluator(x.params, eval), mp)
+		if scaling != 1 {
+			res, err = me.EvaluateAndScaleNew(ct, complex(scaling, 0))
+		} else {
+			res, err = me.EvaluateNew(ct)
+		}
 	}) {
 		return
 	}
@@ -620,6 +632,7 @@ func runMod1(c *eng.Ctx, cc compCfg) {
 			w = math.Asin(w)
 		}
 		w = w * mp.MessageRatio() * mp.QDiff / (2 * math.Pi)
+		w *= scaling
 		if e := math.Hypot(real(out[i])-w, imag(out[i])); e > worst || math.IsNaN(e) {
 			worst, wi = e, i
 		}
